@@ -442,6 +442,49 @@ def battery_cases(rng, flavour, reps):
     return out
 
 
+def gate_cases(rng, n):
+    """sends issued by a task that runs on the arbiter itself (through Arbiter::current()) while commands sent from other
+    threads are still waiting in its channel: a 'gate' task keeps the arbiter's thread busy and executes the coordinator's
+    sends; FIFO over all senders, and nothing sent after a stop() issued from the arbiter itself ever starts"""
+    out = []
+    for r in range(n):
+        ops = ["n:" + rng.choice("sf")]
+        narb = 1
+        if rng.random() < 0.3:
+            ops.append("n:" + rng.choice("sf"))
+            narb = 2
+        k = rng.randrange(narb)
+        ops.append("sp:%d:g:%s" % (k, rng.choice("oh")))
+        g = len(ops) - 1
+        ops.append("aw:%d:%d" % (k, g))
+        last = None
+        for _ in range(rng.randint(2, 5)):
+            via = rng.choice("ooghtg")
+            kind = rng.choice(["c", "c", "c", "b", "x"])
+            ops.append("%s:%d:%s:%s" % ("sf" if rng.random() < 0.6 else "sp", k, kind, via))
+            last = len(ops) - 1
+            if narb == 2 and rng.random() < 0.3:
+                ops.append("sf:%d:c:o" % (1 - k))
+        ops.append("aw:%d:%d" % (k, last))        # releases the gate; everything queued so far has started, in order
+        if rng.random() < 0.7:
+            # a stop issued from the arbiter's own thread, then a send from there and one from outside: neither starts
+            ops.append("sp:%d:g:o" % k)
+            ops.append("aw:%d:%d" % (k, len(ops) - 1))
+            if rng.random() < 0.5:
+                ops.append("sf:%d:c:%s" % (k, rng.choice("og")))
+            ops.append("st:%d:g" % k)
+            ops.append("sf:%d:c:g" % k)
+            ops.append("sf:%d:c:o" % k)
+        else:
+            ops.append("st:%d:%s" % (k, rng.choice("oh")))
+        ops.append("j:%d" % k)
+        if narb == 2:
+            ops += ["st:%d:o" % (1 - k), "j:%d" % (1 - k)]
+        seed = rng.randrange(1, 10 ** 6) * 4 + r % 4
+        out.append("%s %d %s" % ("R" if r % 5 == 0 else "W", seed, " ".join(ops)))
+    return out
+
+
 def small(script):
     toks = script.split()
     return len(toks) <= 9 and sum(1 for t in toks if op_class(t) == "n") <= 2
@@ -461,6 +504,8 @@ def check(ctx, pid):
             seen.add(s)
             scripts.append(s)
     cases = list(corpus) + battery_cases(ctx.rng, flavour, 40 if quick else 400)
+    if flavour == "c10":
+        cases += gate_cases(ctx.rng, 150 if quick else 3000)
     for i, s in enumerate(scripts):
         base = ctx.rng.randrange(1, 10 ** 6) * 4
         userun = (i % 4 == 0)
